@@ -21,7 +21,9 @@ def other_data(X, Y):
     X = np.asarray(X, float)
     Y = np.asarray(Y, float)
     Xo = center(X[::-1, ::-1] * 0.75 + 0.5)
-    Yo = Y[::-1] * -0.5 + 0.125 * np.arange(len(Y)).reshape((-1,) + (1,) * (Y.ndim - 1))
+    unit = float(np.abs(Y).max()) if Y.size else 0.0  # the ramp is in Y's units
+    unit = 2.0 ** np.floor(np.log2(unit)) if unit > 0 else 1.0
+    Yo = Y[::-1] * -0.5 + 0.125 * unit * np.arange(len(Y)).reshape((-1,) + (1,) * (Y.ndim - 1))
     return Xo, Yo - Yo.mean(axis=0)
 
 
@@ -123,10 +125,15 @@ class Ref:
         nz = sx[sx > 1e-10 * max(sx[0], 1e-300)] if sx.size else sx
         self.condX = float(nz[0] / nz[-1]) if nz.size else 1.0
         self.rankX = int(nz.size)
+        # the implementation's zero cut is ABSOLUTE (tol = rcond = 1e-12 on eigenvalues): an eigenvalue of
+        # X^T X within two decades of it is neither clearly kept nor clearly dropped
+        self.grey_abs = bool(((sx ** 2 > 1e-14) & (sx ** 2 < 1e-10)).any())
 
     def judgeable(self, k, gap=1e-6):
         """Gap rule + no eigenvalue in the grey zone around the implementation's zero cut."""
         lam = self.lam
+        if self.grey_abs or ((lam[:k] > 1e-14) & (lam[:k] < 1e-10)).any():
+            return False  # within two decades of the documented absolute cut
         rel = lam[:k] / self.lam1
         if ((rel < 1e-9) & (lam[:k] > 1e-13)).any():
             return False  # retained eigenvalue neither clearly positive nor clearly zero
@@ -217,4 +224,12 @@ def pcovr_datas(tier, seed, lattice_steps=None, generic_per_shape=None):
             X = fam.generic(n, m, seed, j, kind="lowrank%d" % rk)
             Y = np.array(fam.generic_vec(n, seed, j, 2), float)
             out.append(("R%dx%dr%d" % (n, m, rk), X, [(Y - Y.mean(axis=0)).tolist()]))
+    # the same generic data in small units (X and Y * 2^-10, so the retained spectrum keeps its dynamic range):
+    # every non-zero eigenvalue of X^T X lies between the documented absolute cut (tol = 1e-12) and 1e-5, so a
+    # cut applied to the wrong power of the spectrum, or an absolute floor in one route only, shows
+    seen = set()
+    for l, X, Ys in list(out):
+        if l in ("G6x4", "G4x6", "G4x4", "R6x4r2") and (tier == "thorough" or l not in seen):
+            seen.add(l)
+            out.append(("S" + l, (np.array(X, float) * 2.0 ** -10).tolist(), [(np.array(Y, float) * 2.0 ** -10).tolist() for Y in Ys[:2]]))
     return out
